@@ -790,7 +790,12 @@ impl Property for C18 {
                 plan1 = vec![PlanEntry { idx: y.next_u64(), kind: PlanKind::Measured(0) }];
                 plan2 = vec![PlanEntry { idx: y.next_u64(), kind: PlanKind::Measured(0) }];
             }
-            let stale: Vec<String> = ["oc.csv", "of.csv", "r1.json", "r2.json"].iter().filter(|_| d.chance(0.35)).map(|n| n.to_string()).collect();
+            let mut stale: Vec<String> = ["oc.csv", "of.csv", "r1.json", "r2.json"].iter().filter(|_| d.chance(0.35)).map(|n| n.to_string()).collect();
+            for n in ["oc.csv", "of.csv", "r1.json", "in.csv", "f.csv"] {
+                if d.chance(0.12) {
+                    stale.push(worldp::stale_sibling(&mut d, n));
+                }
+            }
             let crash_first = if c.chance(0.25) { Some((n_in1 * 4) as u64 + c.below(9)) } else { None };
             Some(ProcPart {
                 entropy1: s.next_u64(),
